@@ -153,6 +153,13 @@ func (r *Report) finish() int {
 			known[f.key] = f
 		}
 	}
+	// stable order (rule code may enumerate in map order): reports, samples and replay numbers do not vary between runs
+	sort.SliceStable(r.Obs, func(i, j int) bool {
+		if r.Obs[i].Rule != r.Obs[j].Rule {
+			return r.Obs[i].Rule < r.Obs[j].Rule
+		}
+		return r.Obs[i].Key < r.Obs[j].Key
+	})
 	nViol, nKnown, nDis := 0, 0, 0
 	var viol []*Ob
 	for _, o := range r.Obs {
